@@ -2241,11 +2241,14 @@ class Parameters:
                     with _syncing(self_.self, (pname,)):
                         self_.update({pname: new_obj})
             else:
-                with _syncing(self_.self, (pname,)):
-                    try:
-                        self_.update({pname: await awaitable})
-                    except Skip:
-                        pass
+                # Await outside the _syncing scope: an assignment made while the
+                # result is pending is a genuine override, not a sync update
+                try:
+                    new_obj = await awaitable
+                    with _syncing(self_.self, (pname,)):
+                        self_.update({pname: new_obj})
+                except Skip:
+                    pass
         finally:
             # Ensure we clean up but only if the task matches the currrent task
             if self_.self._param__private.async_refs.get(pname) is current_task:
